@@ -34,6 +34,7 @@ type scriptDev struct {
 	untouched    bool // the device reports success but writes nothing back (OutLen, Status, Data stay as sent)
 	errWrites    bool // a failing quote request has nevertheless filled the buffer (status 0, valid OutLen) before failing
 	sawOutLen    []uint32
+	viaABI       bool    // the request crosses into the device the way client.LinuxDevice hands it to the kernel: req.ABI(), Pointer(), Finish(req)
 	setLength    *uint64 // the device rewrites the request's Length field (the request is handed over by pointer)
 	tdReport     [labi.TdReportSize]byte
 	data         []byte // what the device writes into the buffer (len <= ReqBufSize)
@@ -70,6 +71,14 @@ func (d *scriptDev) Ioctl(command uintptr, arg any) (uintptr, error) {
 		if !ok {
 			d.unexpected = append(d.unexpected, fmt.Sprintf("quote buffer of type %T", req.Buffer))
 			return 0, errors.New("bad buffer")
+		}
+		if d.viaABI {
+			// what client.LinuxDevice.Ioctl does around the system call; the "kernel" follows the raw
+			// struct tdx_quote_req { u64 buf; u64 len } and fills the header it finds there
+			conv := req.ABI()
+			kreq := (*labi.TdxQuoteReqABI)(conv.Pointer())
+			hdr = (*labi.TdxQuoteHdr)(kreq.Buffer)
+			defer conv.Finish(req)
 		}
 		d.sawQuoteReport = append(d.sawQuoteReport, append([]byte{}, hdr.Data[:labi.TdReportSize]...))
 		d.sawInLen = append(d.sawInLen, hdr.InLen)
@@ -120,12 +129,83 @@ func (v valDev) Ioctl(command uintptr, arg any) (uintptr, error) {
 	return v.d.Ioctl(command, arg)
 }
 
+// zeroDev, nilPtrDev and nilMapDev are working devices whose VALUE is the zero value of its type: an empty struct used
+// by value, a nil pointer whose methods do not touch the receiver, a nil map type with methods. (They serve the
+// scripted device the harness has currently in hand; the checks that use them run one call at a time.)
+var c15CurDev *scriptDev
+
+type zeroDev struct{}
+
+func (zeroDev) Open(string) error { return nil }
+func (zeroDev) Close() error      { return nil }
+func (zeroDev) Ioctl(command uintptr, arg any) (uintptr, error) {
+	return c15CurDev.Ioctl(command, arg)
+}
+
+type nilPtrDev struct{ unused int }
+
+func (*nilPtrDev) Open(string) error { return nil }
+func (*nilPtrDev) Close() error      { return nil }
+func (*nilPtrDev) Ioctl(command uintptr, arg any) (uintptr, error) {
+	return c15CurDev.Ioctl(command, arg)
+}
+
+type nilMapDev map[string]int
+
+func (nilMapDev) Open(string) error { return nil }
+func (nilMapDev) Close() error      { return nil }
+func (nilMapDev) Ioctl(command uintptr, arg any) (uintptr, error) {
+	return c15CurDev.Ioctl(command, arg)
+}
+
+var c15CurProv *scriptProvider
+
+type zeroProv struct{}
+
+func (zeroProv) IsSupported() error                       { return c15CurProv.IsSupported() }
+func (zeroProv) GetRawQuote(rd [64]byte) ([]uint8, error) { return c15CurProv.GetRawQuote(rd) }
+
+type nilPtrProv struct{ unused int }
+
+func (*nilPtrProv) IsSupported() error                       { return c15CurProv.IsSupported() }
+func (*nilPtrProv) GetRawQuote(rd [64]byte) ([]uint8, error) { return c15CurProv.GetRawQuote(rd) }
+
+type nilSliceProv []int
+
+func (nilSliceProv) IsSupported() error                       { return c15CurProv.IsSupported() }
+func (nilSliceProv) GetRawQuote(rd [64]byte) ([]uint8, error) { return c15CurProv.GetRawQuote(rd) }
+
+// c15Provider returns the handle through which provider p is handed to the client.
+func c15Provider(kind int, p *scriptProvider) client.QuoteProvider {
+	c15CurProv = p
+	switch kind {
+	case 1:
+		return zeroProv{}
+	case 2:
+		return (*nilPtrProv)(nil)
+	case 3:
+		return nilSliceProv(nil)
+	}
+	return p
+}
+
 func c15Device(kind int, d *scriptDev) client.Device {
 	switch kind {
+	case 4:
+		c15CurDev = d
+		return zeroDev{}
+	case 5:
+		c15CurDev = d
+		return (*nilPtrDev)(nil)
+	case 6:
+		c15CurDev = d
+		return nilMapDev(nil)
 	case 1:
 		return funcDev(func(_ string, command uintptr, arg any) (uintptr, error) { return d.Ioctl(command, arg) })
 	case 2:
 		return valDev{d: d, tags: []string{"by", "value"}, meta: map[string]int{"k": 1}}
+	case 3:
+		d.viaABI = true
 	}
 	return d
 }
@@ -179,7 +259,7 @@ func (c c15Cell) String() string {
 		extra += fmt.Sprintf(" device-rewrites-Length(kind %d)", c.lenWrite)
 	}
 	if c.devKind != 0 {
-		extra += []string{"", " device-is-a-func-value", " device-is-a-struct-by-value"}[c.devKind]
+		extra += []string{"", " device-is-a-func-value", " device-is-a-struct-by-value", " request-crosses-through-the-linuxabi-helpers", " device-is-an-empty-struct-by-value", " device-is-a-nil-pointer-with-methods", " device-is-a-nil-map-with-methods"}[c.devKind]
 	}
 	if c.qgsShaped {
 		extra += " bytes-framed-like-a-service-reply"
@@ -445,7 +525,7 @@ func TestC15(t *testing.T) {
 				valid := (i+rep)%2 == 0
 				c.errKind, c.errWrites = (i/2+rep)%len(c15Errors), (i/3+rep)%2 == 0
 				c.lenWrite, c.zeroTail = (i/5+rep)%7, []int{0, 1, 3, 0, 17}[(i/9+rep)%5]
-				c.devKind, c.qgsShaped = (i/11+rep)%3, (i/13+rep)%4 == 0
+				c.devKind, c.qgsShaped = (i/11+rep)%7, (i/13+rep)%4 == 0
 				key, oracle, detail := c15RunCell(c, s, valid)
 				nontrivial := c.rErr || c.qErr || c.rRes != 0 || c.qRes != 0 || c.status != 0 || c.outLen <= 1 || c.outLen >= labi.ReqBufSize
 				if nontrivial {
@@ -474,7 +554,7 @@ func TestC15(t *testing.T) {
 			untouched: rapid.IntRange(0, 7).Draw(t, "untouched") == 0,
 			errKind:   rapid.IntRange(0, len(c15Errors)-1).Draw(t, "errKind"), errWrites: rapid.Bool().Draw(t, "errWrites"),
 			lenWrite: rapid.SampledFrom([]int{0, 0, 1, 2, 3, 4, 5, 6}).Draw(t, "lengthFieldRewritten"),
-			devKind:  rapid.IntRange(0, 2).Draw(t, "deviceKind"), qgsShaped: rapid.IntRange(0, 3).Draw(t, "framedLikeAServiceReply") == 0,
+			devKind:  rapid.IntRange(0, 6).Draw(t, "deviceKind"), qgsShaped: rapid.IntRange(0, 3).Draw(t, "framedLikeAServiceReply") == 0,
 		}
 		valid := rapid.Bool().Draw(t, "valid")
 		if valid && rapid.Bool().Draw(t, "exactLength") {
@@ -521,14 +601,20 @@ func TestC15(t *testing.T) {
 		devPath := rapid.SampledFrom([]string{"/nonexistent/verif-tdx-guest", "/nonexistent/verif-tdx-guest", "/dev/null", c15PlainFile()}).Draw(t, "devicePath")
 		_ = flag.Set("tdx_guest_device_path", devPath)
 		defer flag.Set("tdx_guest_device_path", "/nonexistent/verif-tdx-guest")
+		// the provider is handed over as a pointer, or as a value that is the zero value of its type (an empty struct, a
+		// nil pointer with methods that do not need the receiver, a nil slice type with methods): a provider all the same
+		hk := rapid.SampledFrom([]int{0, 0, 0, 1, 2, 3}).Draw(t, "providerHandle")
 		gen.Eval()
 		var got []byte
 		v := gen.Call(func() error {
 			var err error
-			got, err = client.GetRawQuote(p, rd)
+			got, err = client.GetRawQuote(c15Provider(hk, p), rd)
 			return err
 		})
-		rp := map[string]any{"kind": "provider", "device_path": devPath}
+		rp := map[string]any{"kind": "provider", "device_path": devPath, "handle": hk}
+		if hk != 0 {
+			gen.Class(fmt.Sprintf("provider:handle-is-a-zero-value(kind %d)", hk))
+		}
 		if v.Panicked() {
 			gen.Fail(t, gen.Violation{Key: "provider-panic", Oracle: "never a crash", Detail: v.Panic, Replay: rp})
 			return
@@ -558,7 +644,7 @@ func TestC15(t *testing.T) {
 		var gq any
 		v2 := gen.Call(func() error {
 			var err error
-			gq, err = client.GetQuote(&p2, rd)
+			gq, err = client.GetQuote(c15Provider(hk, &p2), rd)
 			return err
 		})
 		if v2.Panicked() {
